@@ -80,27 +80,27 @@ Section Thms.
     intro H; inversion H. exists vals. auto.
   Qed.
 
-  Theorem faithful_outside_known n kvs out :
-    NoDup (map fst kvs) -> known_record n kvs = None ->
+  Theorem faithful_elements n kvs out :
+    NoDup (map fst kvs) ->
     ns_elements b64 n (JObj kvs) = Ok out -> faithful b64 n kvs out.
   Proof.
-    intros Hnd K H. apply elements_ok in H as (vals & Hv & ->).
-    pose proof (ns_spec b64 n kvs Hnd K) as S. rewrite Hv in S. apply record_den_faithful, S.
+    intros Hnd H. apply elements_ok in H as (vals & Hv & ->).
+    pose proof (ns_spec b64 n kvs Hnd) as S. rewrite Hv in S. apply record_den_faithful, S.
   Qed.
 
   Theorem exactly_supplied n kvs out :
-    NoDup (map fst kvs) -> known_record n kvs = None ->
+    NoDup (map fst kvs) ->
     ns_elements b64 n (JObj kvs) = Ok out ->
     NoDup (map fst out) /\ forall k, In k (map fst out) <-> expected_id n kvs k.
-  Proof. intros Hnd K H. destruct (faithful_outside_known n kvs out Hnd K H) as (A & B & _). auto. Qed.
+  Proof. intros Hnd H. destruct (faithful_elements n kvs out Hnd H) as (A & B & _). auto. Qed.
 
   Theorem value_preserved n kvs out :
-    NoDup (map fst kvs) -> known_record n kvs = None ->
+    NoDup (map fst kvs) ->
     ns_elements b64 n (JObj kvs) = Ok out ->
     forall k v, In (k, v) out ->
       exists r j, row_for (ns_dm n) k = Some r /\ jget k kvs = Some j /\
                   den b64 spec_fuel n kvs (dm_class r) j v = true.
-  Proof. intros Hnd K H. destruct (faithful_outside_known n kvs out Hnd K H) as (_ & _ & C). exact C. Qed.
+  Proof. intros Hnd H. destruct (faithful_elements n kvs out Hnd H) as (_ & _ & C). exact C. Qed.
 
   Ltac brk := repeat match goal with
     | H : _ && _ = true |- _ => let A := fresh in let B := fresh in apply andb_true_iff in H as [A B]
@@ -138,21 +138,21 @@ Section Thms.
   Qed.
 
   Theorem types n kvs out :
-    NoDup (map fst kvs) -> known_record n kvs = None ->
+    NoDup (map fst kvs) ->
     ns_elements b64 n (JObj kvs) = Ok out ->
     forall k v, In (k, v) out -> exists r, row_for (ns_dm n) k = Some r /\ cbor_type_ok (dm_class r) v.
   Proof.
-    intros Hnd K H k v Hkv. destruct (value_preserved n kvs out Hnd K H k v Hkv) as (r & j & R & _ & D).
+    intros Hnd H k v Hkv. destruct (value_preserved n kvs out Hnd H k v Hkv) as (r & j & R & _ & D).
     exists r. split; [exact R|]. apply (den_type _ _ _ _ _ _ D).
   Qed.
 
   (* ---------- rejection and acceptance ---------- *)
 
   Theorem out_of_domain_rejected n kvs :
-    NoDup (map fst kvs) -> known_record n kvs = None ->
+    NoDup (map fst kvs) ->
     ns_dom b64 n kvs = false -> exists e, ns_elements b64 n (JObj kvs) = Err e.
   Proof.
-    intros Hnd K Hd. pose proof (ns_spec b64 n kvs Hnd K) as S. unfold ns_elements.
+    intros Hnd Hd. pose proof (ns_spec b64 n kvs Hnd) as S. unfold ns_elements.
     destruct (ns_from_json b64 n (JObj kvs)) as [vals|e|p]; cbn [rmap].
     - destruct S as [_ S]. rewrite S in Hd. discriminate.
     - eauto.
@@ -160,21 +160,21 @@ Section Thms.
   Qed.
 
   Theorem accepts_valid n kvs :
-    NoDup (map fst kvs) -> known_record n kvs = None ->
+    NoDup (map fst kvs) ->
     ns_dom b64 n kvs = true -> exists out, ns_elements b64 n (JObj kvs) = Ok out /\ faithful b64 n kvs out.
   Proof.
-    intros Hnd K Hd. pose proof (ns_spec b64 n kvs Hnd K) as S. unfold ns_elements.
+    intros Hnd Hd. pose proof (ns_spec b64 n kvs Hnd) as S. unfold ns_elements.
     destruct (ns_from_json b64 n (JObj kvs)) as [vals|e|p]; cbn [rmap].
     - exists (to_ns_map vals). split; [reflexivity|]. apply record_den_faithful, S.
     - rewrite S in Hd. discriminate.
     - contradiction.
   Qed.
 
-  Theorem no_panic n kvs s :
-    NoDup (map fst kvs) -> known_record n kvs = None -> ns_elements b64 n (JObj kvs) <> Panic s.
+  Theorem no_panic n j s : ns_elements b64 n j <> Panic s.
   Proof.
-    intros Hnd K. pose proof (ns_spec b64 n kvs Hnd K) as S. unfold ns_elements.
-    destruct (ns_from_json b64 n (JObj kvs)) as [vals|e|p]; cbn [rmap]; try discriminate. contradiction.
+    unfold ns_elements. pose proof (ns_no_panic b64 n j) as P.
+    destruct (ns_from_json b64 n j) as [vals|e|p]; cbn [rmap]; try discriminate.
+    intro H. inversion H; subst. apply (P s). reflexivity.
   Qed.
 
   Theorem not_object_rejected n j : (forall kvs, j <> JObj kvs) -> exists e, ns_elements b64 n j = Err e.
@@ -187,35 +187,35 @@ Section Thms.
   Proof. reflexivity. Qed.
 
   Theorem missing_rejected n kvs r :
-    NoDup (map fst kvs) -> known_record n kvs = None ->
+    NoDup (map fst kvs) ->
     In r (ns_dm n) -> dm_presence r = Mandatory -> supplied kvs (dm_id r) = false ->
     exists e, ns_elements b64 n (JObj kvs) = Err e.
   Proof.
-    intros Hnd K Hr Hp Hs. apply out_of_domain_rejected; try assumption.
+    intros Hnd Hr Hp Hs. apply out_of_domain_rejected; try assumption.
     rewrite ns_dom_rows. eapply forallb_false; [exact Hr|]. unfold row_dom. rewrite Hp.
     unfold supplied in Hs. destruct (jget (dm_id r) kvs) as [j|]; [|reflexivity].
     destruct j; try discriminate. apply dom_null.
   Qed.
 
   Theorem bad_value_rejected n kvs r j :
-    NoDup (map fst kvs) -> known_record n kvs = None ->
+    NoDup (map fst kvs) ->
     In r (ns_dm n) -> is_family r = false -> jget (dm_id r) kvs = Some j -> j <> JNull ->
     dom b64 spec_fuel n kvs (dm_class r) j = false ->
     exists e, ns_elements b64 n (JObj kvs) = Err e.
   Proof.
-    intros Hnd K Hr Hf Hj Hn Hd. apply out_of_domain_rejected; try assumption.
+    intros Hnd Hr Hf Hj Hn Hd. apply out_of_domain_rejected; try assumption.
     rewrite ns_dom_rows. eapply forallb_false; [exact Hr|]. unfold row_dom, is_family in *.
     destruct (dm_presence r); try discriminate; rewrite Hj; [exact Hd|].
     rewrite Hd. destruct j; try reflexivity. contradiction.
   Qed.
 
   Theorem bad_family_value_rejected n kvs r f k j :
-    NoDup (map fst kvs) -> known_record n kvs = None ->
+    NoDup (map fst kvs) ->
     In r (ns_dm n) -> dm_presence r = Family f -> In (k, j) kvs -> fam_ok f (dm_id r) k = true ->
     dom b64 spec_fuel n kvs (dm_class r) j = false ->
     exists e, ns_elements b64 n (JObj kvs) = Err e.
   Proof.
-    intros Hnd K Hr Hp Hkj Hf Hd. apply out_of_domain_rejected; try assumption.
+    intros Hnd Hr Hp Hkj Hf Hd. apply out_of_domain_rejected; try assumption.
     rewrite ns_dom_rows. eapply forallb_false; [exact Hr|]. unfold row_dom. rewrite Hp.
     eapply forallb_false; [exact Hkj|]. cbn [fst snd]. rewrite Hf, Hd. reflexivity.
   Qed.
